@@ -204,3 +204,8 @@ def gate_targets_ok(g, END):
 def gates_wellformed(graph, END):
     """Object-model fact about graphs built by the constructor: every gate's targets are node names or END."""
     return forall_keys(lambda k: k not in graph._nodes or gate_targets_ok(graph._nodes[k], END), graph._nodes)
+
+
+def any_default(param, nodes):
+    """Some node consuming `param` has a default (or bound-inside) value for it."""
+    return any(param in n.inputs and bool(n.has_default_for(param)) for n in nodes.values())
